@@ -67,26 +67,26 @@ theorem define_only_innermost (σ : Store) (env : Nat) (n : Name) (v : Val) :
 theorem redeclare_same_scope_error (P : Platform) (f : Nat) (d : VarDecl) (env : Nat) (repl : Bool) (σ : Store) (w : Val)
     (h0 : σ.hadError = false) (hi : d.init = none) (hh : σ.getHere env d.name = some w) :
     ∃ m, evalS P (f + 1) (.var d) env repl σ = .ok (.nil, .none) (σ.rte m d.line) := by
-  unfold evalS; simp [h0, hi, hh, nilOk]
+  unfold evalS; simp [guardErr, ER.seq, Res.bind, h0, hi, hh, nilOk]
   exact ⟨_, rfl⟩
 
 theorem declare_fresh_name (P : Platform) (f : Nat) (d : VarDecl) (env : Nat) (repl : Bool) (σ : Store)
     (h0 : σ.hadError = false) (hi : d.init = none) (hh : σ.getHere env d.name = none) :
     evalS P (f + 1) (.var d) env repl σ = .ok (.nil, .none) (σ.define env d.name .nil) := by
-  unfold evalS; simp [h0, hi, hh, nilOk]
+  unfold evalS; simp [guardErr, ER.seq, Res.bind, h0, hi, hh, nilOk]
 
 /-- reading a name with no visible binding, and assigning to one, are runtime errors -/
 theorem unbound_read_error (P : Platform) (f : Nat) (n : Name) (line env : Nat) (repl : Bool) (σ : Store)
     (h0 : σ.hadError = false) (hg : σ.get env n = none) :
     ∃ m, evalE P (f + 1) (.ident n line) env repl σ = .ok (.nil, .none) (σ.rte m line) := by
-  rw [evalE]; simp [h0, hg, nilOk]
+  rw [evalE]; simp [guardErr, ER.seq, Res.bind, h0, hg, nilOk]
   exact ⟨_, rfl⟩
 
 theorem unbound_assign_error (P : Platform) (f : Nat) (n : Name) (nl line env : Nat) (v : Expr) (repl : Bool) (σ σ1 : Store) (x : Val)
     (h0 : σ.hadError = false) (hv : evalE P f v env repl σ = .ok (x, .none) σ1) (h1 : σ1.hadError = false)
     (hf : σ1.find env n = none) :
     ∃ m, evalE P (f + 1) (.assign n nl v line) env repl σ = .ok (x, .none) (σ1.rte m nl) := by
-  rw [evalE]; simp only [h0, hv]; simp [h1, hf]
+  rw [evalE]; simp only [guardErr, ER.seq, Res.bind, h0, hv]; simp [guardErr, ER.seq, Res.bind, h1, hf]
   exact ⟨_, rfl⟩
 
 /-- a block runs in a fresh child scope of the current one; the scope's frame is never referred to
@@ -94,14 +94,14 @@ theorem unbound_assign_error (P : Platform) (f : Nat) (n : Name) (nl line env : 
 theorem block_fresh_scope (P : Platform) (f : Nat) (ss : List Stmt) (env : Nat) (repl : Bool) (σ : Store) (h0 : σ.hadError = false) :
     evalS P (f + 1) (.block ss) env repl σ =
       evalBlock P f ss σ.envs.length repl { σ with envs := σ.envs ++ [⟨[], some env⟩] } := by
-  rw [evalS]; simp [h0, Store.newEnv]
+  rw [evalS]; simp [guardErr, ER.seq, Res.bind, h0, Store.newEnv]
 
 /-- a `ফর` statement gets one fresh scope shared by initializer, condition, increment and body -/
 theorem for_scope_shared (P : Platform) (f : Nat) (c : Expr) (inc : Option Expr) (b : Stmt) (env : Nat) (repl : Bool) (σ : Store)
     (h0 : σ.hadError = false) :
     evalS P (f + 1) (.forS none c inc b) env repl σ =
       forLoop P f c inc b σ.envs.length repl { σ with envs := σ.envs ++ [⟨[], some env⟩] } := by
-  rw [evalS]; simp [h0, Store.newEnv]
+  rw [evalS]; simp [guardErr, ER.seq, Res.bind, h0, Store.newEnv]
 
 /-- user code runs in a child of the frame that holds the built-ins -/
 theorem program_scope_under_globals (input : List Char) :
